@@ -151,6 +151,8 @@ type FuncContract struct {
 	Pure     bool // extern: result is a function of the arguments only
 	Props    []string
 	NoPanic  bool
+	NoPanicKinds []string // empty = all kinds: nil index slice divide typeassert makeslice nilmap explicit
+	NoPanicProps []string // properties the nopanic obligations count toward
 	Clauses  []*Clause
 	Reveal   []string
 	File     string
@@ -790,6 +792,16 @@ func (p *parser) parseFile() (*SpecFile, error) {
 			if err := p.parseClauses(fc); err != nil {
 				return nil, err
 			}
+			// clauses without their own property tag belong to the block's properties (several
+			// blocks for one function are merged; each keeps counting toward its own properties)
+			for _, cl := range fc.Clauses {
+				if len(cl.Props) == 0 {
+					cl.Props = append([]string{}, fc.Props...)
+				}
+			}
+			if fc.NoPanic {
+				fc.NoPanicProps = append([]string{}, fc.Props...)
+			}
 			sf.Funcs = append(sf.Funcs, fc)
 		default:
 			return nil, p.errf("unknown declaration %q", t.s)
@@ -814,6 +826,19 @@ func (p *parser) parseClauses(fc *FuncContract) error {
 		case "nopanic":
 			p.next()
 			fc.NoPanic = true
+			if p.isOp("(") { // nopanic(typeassert, index, ...): only these panic kinds are obligations
+				p.next()
+				for !p.isOp(")") {
+					t := p.next()
+					if t.kind == "eof" {
+						return p.errf("unterminated nopanic(...)")
+					}
+					if t.kind == "id" {
+						fc.NoPanicKinds = append(fc.NoPanicKinds, t.s)
+					}
+				}
+				p.next()
+			}
 		case "fresh":
 			p.next()
 			fc.Fresh = true
